@@ -140,6 +140,8 @@ def is_sequence(string):
 
 
 def remove_constructed(string):
+    if not string:
+        raise UnexpectedDER("Empty string does not encode a constructed tag")
     s0 = str_idx_as_int(string, 0)
     if (s0 & 0xE0) != 0xA0:
         raise UnexpectedDER(
@@ -166,6 +168,8 @@ def remove_sequence(string):
 
 
 def remove_octet_string(string):
+    if not string:
+        raise UnexpectedDER("Empty string does not encode an octet string")
     if string[:1] != b"\x04":
         n = str_idx_as_int(string, 0)
         raise UnexpectedDER("wanted type 'octetstring' (0x04), got 0x%02x" % n)
